@@ -141,6 +141,7 @@ class OperatorWorld(World):
     def __init__(self, ctx, config=None):
         super().__init__(ctx, config)
         self.pool = []
+        self.mfo = None
 
     def signature(self):
         return tuple(sorted((e.kind, min(len(e.val), 6), repr(e.attrs) if e.attrs else "") for e in self.pool))
@@ -228,6 +229,11 @@ class OperatorWorld(World):
             return {"k": "neg", "a": a}
         if g == "eq":
             return {"k": "eq", "a": a, "b": b}
+        if rng.random() < 0.35:
+            # one long-lived MultiformOperator, queried and modified over several steps
+            kk = rng.choice(["mfo_new", "mfo_commute", "mfo_commute", "mfo_iadd", "mfo_remove", "mfo_compress"])
+            return {"k": kk, "ta": self._gen_terms(rng, "qubit") or [[[[0, "Z"]], 1.0]], "tb": self._gen_terms(rng, "qubit") or [[[[0, "X"]], 1.0]],
+                    "resolved": rng.random() < 0.6, "idx": rng.randrange(8), "widen": rng.random() < 0.3}
         kk = rng.choice(["mf_mul", "mf_mul", "mf_collapse", "mf_commute", "mf_commute"])
         if kk == "mf_collapse":
             nq = rng.randint(1, 4) if rng.random() < 0.7 else rng.choice([9, 16, 31, 32, 33, 34, 40, 63, 64, 65, 70])
@@ -312,6 +318,8 @@ class OperatorWorld(World):
                 t["fault"] = "rejected_operands.attribute_mismatch"
                 V += self.apply(t)
             return V
+        if k.startswith("mfo_"):
+            return self._apply_array_object(op)
         if k.startswith("mf_"):
             return self._apply_array(op)
         if not self.pool:
@@ -619,6 +627,85 @@ class OperatorWorld(World):
             return V
         if not (M.close(sut_value(a), va) and M.close(sut_value(b), vb)):
             V.append(Violation("C16", "operand-mutated", "MultiformOperator", {"op": op}))
+        return V
+
+    def _apply_array_object(self, op):
+        """A long-lived MultiformOperator: do_commute must keep agreeing with the symbolic form after every in-place change."""
+        from tangelo.toolboxes.operators.multiformoperator import MultiformOperator, do_commute
+        ctx, V, k = self.ctx, [], op["k"]
+
+        def mk(terms):
+            o, val = build("TQ", terms, None)
+            val = M.clean(val)
+            o.terms = dict(val)
+            return o, val
+        site = "MultiformOperator(long-lived)"
+        try:
+            if k == "mfo_new" or getattr(self, "mfo", None) is None:
+                a, va = mk(op["ta"])
+                if not va:
+                    ctx.outcome(k, "skipped")
+                    return V
+                nq = max(M.n_qubits_of(va), 1) + (1 if op.get("widen") else 0)
+                self.mfo = {"obj": MultiformOperator.from_qubitop(a, nq), "val": va, "nq": nq}
+                ctx.outcome(k, "ok")
+                if k == "mfo_new":
+                    return V
+            e = self.mfo
+            nq = e["nq"]
+            b, vb = mk(op["tb"])
+            vb = {t: c for t, c in vb.items() if all(q < nq for q, _ in t)}
+            if k == "mfo_iadd":
+                if not vb:
+                    ctx.outcome(k, "skipped")
+                    return V
+                other = MultiformOperator.from_qubitop(build("TQ", [], None)[0].__class__(), nq) if False else None
+                qb = build("TQ", [], None)[0]
+                qb.terms = dict(vb)
+                e["obj"] += MultiformOperator.from_qubitop(qb, nq)
+                e["obj"].compress(n_qubits=nq)
+                e["val"] = M.clean(M.add(e["val"], vb), 1e-8)
+                ctx.probe("C16.array_object_modified_in_place")
+            elif k == "mfo_remove":
+                keys = list(e["obj"].terms.keys())
+                if len(keys) < 2:
+                    ctx.outcome(k, "skipped")
+                    return V
+                i = op["idx"] % len(keys)
+                e["obj"].remove_terms(i)
+                e["val"] = {t: c for t, c in e["val"].items() if t != keys[i]}
+                ctx.probe("C16.array_object_modified_in_place")
+            elif k == "mfo_compress":
+                e["obj"].compress(n_qubits=nq)
+            # after every step: same terms as the model, and term-resolved commutation as the symbolic form says
+            got = {t: complex(c) for t, c in e["obj"].terms.items()}
+            ctx.check("C16.array_object")
+            if not M.close(got, e["val"], 2e-8):
+                V.append(Violation("C16", "wrong-value", site + ":" + k, {"diff": M.diff(got, e["val"], 2e-8), "op": op}))
+                self.mfo = None
+                return V
+            if not vb or not got:
+                ctx.outcome(k, "ok")
+                return V
+            qb = build("TQ", [], None)[0]
+            qb.terms = dict(vb)
+            mb = MultiformOperator.from_qubitop(qb, nq)
+            res = do_commute(e["obj"], mb, term_resolved=True)
+            exp = [all(M.words_commute(ta, tb_) for tb_ in vb) for ta in e["obj"].terms.keys()]
+            if [bool(x) for x in np.asarray(res).tolist()] != exp:
+                V.append(Violation("C16", "wrong-commutation", site + ":do_commute:term_resolved", {"got": np.asarray(res).tolist(), "expected": exp, "after": k, "op": op}))
+                self.mfo = None
+                return V
+            agg = bool(do_commute(e["obj"], mb))
+            if agg != all(exp):
+                V.append(Violation("C16", "wrong-commutation", site + ":do_commute", {"got": agg, "expected": all(exp), "after": k, "op": op}))
+                self.mfo = None
+                return V
+            ctx.outcome(k, "ok")
+        except Exception as ex:
+            ctx.outcome(k, "refused-unexpectedly")
+            V.append(Violation("C16", "unexpected-refusal", site + ":" + k, {"exception": f"{type(ex).__name__}: {str(ex)[:160]}", "op": op}))
+            self.mfo = None
         return V
 
     @staticmethod
